@@ -145,6 +145,12 @@ class LevelAnalysis:
     def iter_source(self, trace, next_event):
         """container local (frame, idx) when `next_event` iterates `into_iter(<local container>)`, else None"""
         it = next_event[2][0] if next_event[2] else None
+        if isinstance(it, tuple) and it[0] == "call" and it[1].endswith("into_iter"):
+            # internal iteration (for_each): the iterator term is passed directly
+            for s in subterms(it):
+                if isinstance(s, tuple) and s[0] == "havoc" and len(s) == 3 and isinstance(s[2], int):
+                    return ("local", s[2])
+            return None
         if not (isinstance(it, tuple) and it[0] == "ref" and it[1][1][0] == "local"):
             return None
         li = it[1][1][2]
@@ -168,6 +174,8 @@ class LevelAnalysis:
         if isinstance(t, tuple) and t[0] == "agg" and isinstance(t[1], str) and t[1].endswith("OrderType"):
             return True
         if t in facts.variant and facts.variant[t] in self.R.variants:
+            return True
+        if isinstance(t, tuple) and t[0] == "upd" and self.R.view(t, facts)[0] is not None:
             return True
         if isinstance(t, tuple) and t[0] == "field" and t[2] == "Some" and isinstance(t[1], tuple) and t[1][0] in ("eff", "call"):
             return True
@@ -209,9 +217,9 @@ class LevelAnalysis:
 class View:
     """a path result seen through a term substitution (same interface as PathResult for the rules)"""
 
-    def __init__(self, r, trace, facts):
+    def __init__(self, r, trace, facts, value=None):
         self.kind = r.kind
-        self.value = r.value
+        self.value = r.value if value is None else value
         self.detail = r.detail
         self.flags = r.flags
         self.state = r.state
@@ -256,7 +264,9 @@ def seq_view(L, r):
     if not pairs:
         return r
     trace, facts = r.trace, r.facts
+    value = r.value
     for old, new in pairs:
+        value = subst(value, old, new) if isinstance(value, tuple) else value
         vo, vn = facts.variant.get(old), facts.variant.get(new)
         if vo is not None and vn is not None and vo != vn:
             return None
@@ -281,7 +291,7 @@ def seq_view(L, r):
                     f2.atoms[a2] = pol
                     f2.order.append((a2, pol))
         facts = f2
-    return View(r, trace, facts)
+    return View(r, trace, facts, value)
 
 
 def container_local(ref):
